@@ -64,9 +64,9 @@ def gen_plan(ch: Chooser, tier: str) -> dict[str, Any]:
             seq.append(f)
         final = ch.weighted([('ok', 5), (400, 1), (404, 1), (409, 1), (422, 1), ('none', 2)])
         backoffs_kind = ch.choice(['empty', 'scalar', 'list', 'reiterable'])
-        backoffs: Any = {'empty': [], 'scalar': ch.choice([0.5, 2.0]),
-                         'list': [ch.choice([0.1, 0.5, 1.0, 4.0]) for _ in range(ch.int(1, 5))],
-                         'reiterable': [ch.choice([0.2, 1.0, 4.0]) for _ in range(ch.int(1, 4))]}[backoffs_kind]
+        backoffs: Any = {'empty': [], 'scalar': ch.choice([0, 0.5, 2.0]),
+                         'list': [ch.choice([0, 0.1, 0.5, 1.0, 4.0]) for _ in range(ch.int(1, 5))],
+                         'reiterable': [ch.choice([0, 0.2, 1.0, 4.0]) for _ in range(ch.int(1, 4))]}[backoffs_kind]
         return {'harness': 'A', 'until': 200.0, 'seq': seq, 'final': final, 'backoffs_kind': backoffs_kind,
                 'backoffs': backoffs, 'enforce_retry_after': ch.bool(0.4),
                 'method': ch.choice(['get', 'patch']), 'request_timeout': ch.choice([None, 30.0])}
